@@ -419,6 +419,15 @@ if kind in ('scalar', 'subset', 'schedule', 'vector'):
                 for symm in (False, True):
                     A = asm_(format=fmt, layout='packed', symmetric=symm)
                     if A is not None and refs is not None and not np.allclose(A, refs, rtol=1e-12, atol=1e-14): bad.append('vector symmetric=%s format=%s differs' % (symm, fmt))
+if kind == 'chunk':
+    # the real chunk_tasks on every (length, thread count) of a large range: consecutive slices covering every task exactly once
+    from pyiga import assemble_tools_cy as atc_
+    for k in range(1, 33):
+        for n in list(range(0, 1200)) + [2047, 2048, 4999, 10007, 20000]:
+            t = np.arange(n); ch = [np.asarray(c) for c in atc_.chunk_tasks(t, k)]
+            if (np.concatenate(ch).tolist() if ch else []) != t.tolist() or any(len(c) == 0 for c in ch) or [len(c) for c in atc_.chunk_tasks(np.zeros(n), k)] != [len(c) for c in ch]:
+                bad.append('chunk_tasks(%d tasks, %d chunks): chunks %s do not cover 0..%d exactly once' % (n, k, [len(c) for c in ch], n - 1)); break
+        if bad: break
 print(json.dumps({'reproduced': bool(bad), 'bad': bad[:8]}))
 '''
 
@@ -461,7 +470,7 @@ def main():
     if run.want('subset'):
         for cfg0, vec in [(c1, False), (c2, False), (c1, True)] + ([(c3, False), (c2, True)] if thorough else []):
             do('index-subsets', subset_harness(an, atc, cfg0, vec), {'kind': 'subset', 'cfg0': cfg0}, {'space': cfg0, 'vector': vec}, max_paths=200000)
-        do('chunking', chunk_harness(atc), {'kind': 'subset', 'cfg0': c1}, {'n': '0..40', 'k': '1..16'}, max_paths=200000)
+        do('chunking', chunk_harness(atc), {'kind': 'chunk'}, {'n': '0..40', 'k': '1..16'}, max_paths=200000)
     if run.want('schedule'):
         for cfg0, nc in [(c1, 2), (c2, 2), (c3, 1)] + ([(c2, 3)] if thorough else []):
             do('schedule-independence', schedule_harness(an, atc, cfg0, nc), {'kind': 'schedule', 'cfg0': cfg0, 'nc': [nc, nc]}, {'space': cfg0, 'components': nc})
